@@ -109,6 +109,21 @@ CLAIMS['C14'] = dict(
          'operands are listed as not decided.',
     design='3/C14', note='Bracket-link symmetry and AST forest shape are properties of run-time data and are not decided. Element text content (as opposed to attribute values) is not checked.')
 
+CLAIMS['C20'] = dict(
+    technique='static analysis: dominance (must-pass-through on the structured CFG) of the cache acceptance path and a who-may-write query for the closing tag',
+    text='Decides the acceptance gate: AnalyzerInformation::analyzeFile skips analysis only under xmlError == XML_SUCCESS and an empty skipAnalysis() '
+         'verdict; skipAnalysis accepts only after the root, root-name and hash-attribute tests (whole-key equality is C18) and after the loop that rejects '
+         'cached internalError/invalidLicense results; the literal </analyzerinfo> is written only by close(); processFilesTxt uses a per-file cache only '
+         'when it parsed completely. A torn file therefore cannot be accepted. The crash points themselves are not enumerated.',
+    design='3/C20', note='Necessary conditions on the reader/writer code; concurrent runs sharing a build dir and the file system\'s write ordering are not decided.')
+CLAIMS['C21'] = dict(
+    technique='static analysis: path conditions on the waitpid status decoding (macro-aware AST), must-analysis of the pipe EOF arm and of the event-loop exit',
+    text='Decides that in the process executor\'s event loop a reportInternalChildErr call exists on the path child>0 && WIFSIGNALED and on the path '
+         'child>0 && WIFEXITED && WEXITSTATUS != EXIT_SUCCESS, the finding is an error located at the worker\'s file and reaches the logger, the child is '
+         'erased from the pid table, a premature end of pipe increments the result and retires the pipe, and the only loop exit is dominated by "no file '
+         'left, no pipe, no child". Six std::exit() calls on short reads in the parent are listed (R21.4, not armed).',
+    design='3/C21', note='That the other files\' findings equal a fault-free run is a run-time property and is not decided.')
+
 NOT_APPLICABLE = {
     'C01': 'soundness of inferred values vs. concrete executions of arbitrary programs; needs an executing/symbolic oracle, no structural necessary condition in valueflow.cpp',
     'C02': 'same as C01, for container sizes',
